@@ -33,6 +33,12 @@ CLAIMS["C10"] = dict(
     note="Proved: operator fragment (binary incl. comparisons and **, unary, parentheses). Not yet a theorem: ternary, lambda, postfix, isinstance/sqrt/E-notation, collections (oracle + correspondence). Python tokenisation of the rendered text is validated (ast.parse of the real text), not proved.",
     technique="Lean 4 proof (printer vs Python grammar round trip) + regenerated tables + CPython-validated spec",
     design="§5 C10")
+CLAIMS["C20"] = dict(
+    text="Unbounded Lean theorems on the model of Name/TrueName::is_superset_of over an arbitrary variant relation (hence every class table and every type depth): member-wise characterisation, union<=U iff each member, order independence of stored members, and the nullable rules (T? never <= T, None <= T?, T <= T? when variants relate). "
+         "The class-table recursion (Context::class with generic substitution, has_parent for names and string names) is an executable Lean model tied by an exhaustive correspondence over the property's finite universe on the class table dumped from the real Context; reflexivity, transitivity over all triples, Any-top, ancestors/unrelated and union laws are decided exhaustively on the implementation's answers over that universe.",
+    note="Proved for all inputs: Name/TrueName layers. Exhaustive over the finite universe (as the property quantifies), not proved for arbitrary tables: reflexivity/transitivity/ancestor laws of the class-table recursion. Function types: reflexivity only.",
+    technique="Lean 4 proof over name-lattice model + exhaustive correspondence/law check on the finite universe",
+    design="§5 C20")
 NOT_YET = {}
 ALL = ["C%02d" % i for i in range(1, 21)]
 
